@@ -11,6 +11,8 @@
   armor reader stack) and by the property's predicate on the implementation.
 -/
 import Saltpack.Proofs.StreamLemmas
+import Saltpack.Proofs.ChunkReaderAll
+import Saltpack.Proofs.PunctAll
 
 namespace Saltpack.Props.C14
 open Saltpack Saltpack.Stream Saltpack.Proofs
@@ -72,6 +74,33 @@ theorem C14_punct_remembers (cap : Nat) (s : PState) (e : RErr)
     pRead cap s = ([], some e, s) := by
   unfold pRead
   simp [h1, h2, h3]
+
+/-- **A reader fault reaches the caller of the chunk reader unchanged**: whatever
+    condition the chunker ends with — in particular a non-EOF error of the
+    underlying reader handed up by `getNextChunk` — is the condition the last
+    `Read` reports, for every schedule of buffer sizes, after exactly the chunks
+    that preceded it (never a clean end-of-message instead). -/
+theorem C14_chunk_reader_reports {σ : Type} (next : σ → Bytes × Option RErr × σ)
+    (σ0 : σ) (n : Nat) (cs : List Bytes) (z : Err)
+    (htr : chunkTrace next n σ0 = (cs, some (.err z))) (hne : ∀ c ∈ cs.dropLast, c ≠ [])
+    (caps : List Nat) (hcaps : ∀ c ∈ caps, 0 < c)
+    (inner : Nat) (hi : n + 1 ≤ inner) (fuel : Nat) (hf : cs.flatten.length + 1 ≤ fuel) :
+    (crReadAll next caps inner fuel 0 { chunker := σ0 } []).2.1 = some (.err z) ∧
+    (crReadAll next caps inner fuel 0 { chunker := σ0 } []).1 = cs.flatten :=
+  let r := crReadAll_eq next σ0 n cs (.err z) htr hne caps hcaps inner hi fuel hf
+  ⟨r.2.1, r.1⟩
+
+/-- **…and the punctuated reader never turns a fault into an end of input**: if
+    the underlying reader's deliveries end in a non-EOF error `z` (alone or
+    together with data, after any fragments) and no period is left, reading on
+    with any buffer sizes hands out all remaining data and then reports exactly
+    `z`. -/
+theorem C14_punct_reports (caps : List Nat) (hpos : ∀ c ∈ caps, 0 < c) (s : PState) (hwf : s.WF)
+    (fuel : Nat) (hfuel : s.cost < fuel) (k : Nat) (t : Bytes) (z : Err)
+    (ht : s.text = (t, .err z)) (hnp : Armor.period ∉ t) :
+    ∃ s1, pReadSeg caps fuel k s [] = (t, some (.err z), s1) :=
+  let ⟨s1, h, _, _⟩ := (pReadSeg_eq caps hpos s hwf fuel hfuel k t (.err z) ht).2 hnp
+  ⟨s1, h⟩
 
 /-! ## non-vacuity -/
 example : (({ enc := Gen.base62Std, sink := [true] } : EncState).write (List.replicate 32 7)).2.1 = false := by decide
